@@ -93,9 +93,14 @@ CHECKS = {
                      '(ATAN2(x,y)=atan2(y,x), LOG(n,b)).',
                 note='Trusted: kt/kt.py, kt/models_math.py (Decimal/round/localcontext/math.trunc|ceil|floor models), library contract table in props/c16.py (P3), CrossHair, z3; floats as exact reals. '
                      'NOT applicable: agreement with correctly rounded IEEE-754 values to a few ulp (libm/numpy C code) and CEILING/FLOOR/TRUNC on fractional binary floats (binary rounding of products is not modelled); CEILING is not covered.'),
+    'C20': dict(engine='XH', technique='symbolic execution (CrossHair+z3) of NPV/XNPV/SLN with symbolic real cash flows on a concrete rate/date grid; PMT/PV with numpy_financial as an uninterpreted recording stub',
+                text='Bounded symbolic model checking: NPV for 6 rates x 1..5 cash flows (thorough 9 x 8) and XNPV for 5 rates x 3 date vectors equal sum c_i f_i within 1e-9 relative for ALL real cash flows '
+                     '(linearity, rate-0 reduction); SLN * life = cost - salvage for all reals, #DIV/0! at life 0; PMT/PV hand exactly (rate, nper, pv|pmt, fv, timing) to the annuity routine.',
+                note=XH_NOTE + ' P4: numpy_financial replaced by a recording stub. NOT applicable: IRR/XIRR root claims (LAPACK eigenvalues / scipy Newton on floats) and the PMT/PV closed forms and their '
+                     'inversion (inside numpy_financial); symbolic rates (float pow has no SMT-LIB counterpart).'),
 }
 NA = {
     'C12': 'persist/restore is ten lines around jsonpickle -> json (C encoder) -> gzip/file I/O; no repo-side kernel a solver can quantify over (symbolic values are realised or pickled as proxy objects at the codec boundary)',
 }
-for _p in ['C08', 'C11', 'C20']:
+for _p in ['C08', 'C11', ]:
     NA.setdefault(_p, 'check not built yet in this revision (planned: see DESIGN.md §4)')
